@@ -575,10 +575,11 @@ def check_top(ck, tier, part):
                 pels = list(w['files'])
                 sample = pels[0][1] if pels else pelbuild.pel([pelbuild.UH()])
                 junk = junk_files(rng, sample)
+                verdict = c09.model_undecodable(env, junk)      # the MODEL says which files a mode cannot decode
                 plid = '%08X' % (d[0][1]['ph']['plid'] if d else 0x1234)
                 for mode, val, kind in [('list', True, 'summary'), ('all', True, 'full'), ('count', True, 'headers'),
                                         ('plid', plid, 'summary'), ('src', rng.choice(['B', 'BD', '1']), 'summary'), ('srcExclude', '@X', 'summary')]:
-                    jk = [(n, b) for n, b in junk if c09.undecodable(kind, b)]
+                    jk = [(n, b) for n, b in junk if verdict[(kind, b)]]
                     a = mainrun.blank_args()
                     a['path'] = '@P'
                     a[mode] = val
